@@ -1,5 +1,10 @@
 (** Proofs about the lifecycle model (C18). *)
 From Orbit Require Import Model.Lifecycle.
+From Coq Require Import Lia.
+
+(** * Configurations *)
+Lemma all_configs_complete : forall cfg, In cfg all_configs.
+Proof. intros [[] [] []]; simpl; auto 10. Qed.
 
 (** * Raised sets *)
 Lemma smem_app s l1 l2 : smem s (l1 ++ l2) = smem s l1 || smem s l2.
@@ -57,43 +62,64 @@ Proof. intros Hi Hm. unfold woken. apply existsb_exists. exists s. split; assump
 (** * Close *)
 
 (** What the consequences add, when the store context and the replicator's root context
-    have been cancelled and every worker is woken by the latter. *)
-Lemma consequences_fixed acts r :
+    have been cancelled and every worker is woken by the latter - in every configuration; the
+    topic channels are closed in the configurations that have any. *)
+Lemma consequences_fixed cfg acts r :
   smem SigStoreCtx r = true -> smem SigReplRootCtx r = true ->
-  let r' := consequences sw_fixed acts r in
-  (forall s, smem s r = true -> smem s r' = true) /\ smem SigTopicChans r' = true /\ smem SigWorkersDone r' = true.
+  let r' := consequences sw_fixed cfg acts r in
+  (forall s, smem s r = true -> smem s r' = true) /\
+  (cf_replicate cfg = true -> smem SigTopicChans r' = true) /\ smem SigWorkersDone r' = true.
 Proof.
-  intros Hc Hr. unfold consequences. rewrite Hc.
-  assert (Hall : forallb (fun a => implb (is_worker a) (woken sw_fixed (raise SigTopicChans r) a)) acts = true).
+  intros Hc Hr. unfold consequences. rewrite Hc. cbn [andb].
+  set (r1 := if cf_replicate cfg then raise SigTopicChans r else r).
+  assert (Hm1 : forall s, smem s r = true -> smem s r1 = true).
+  { intros s Hs. unfold r1. destruct (cf_replicate cfg); [apply raise_mono |]; exact Hs. }
+  assert (Hall : forallb (fun a => implb (is_worker a) (woken sw_fixed r1 a)) acts = true).
   { apply forallb_forall. intros a _. destruct (is_worker a) eqn:W; [| reflexivity]. simpl.
-    apply woken_by with (s := SigReplRootCtx); [| apply raise_mono; exact Hr].
+    apply woken_by with (s := SigReplRootCtx); [| apply Hm1; exact Hr].
     destruct a; try discriminate W; simpl; auto. }
   rewrite Hall. repeat split.
-  - intros s Hs. apply raise_mono. apply raise_mono. exact Hs.
-  - apply raise_mono. apply raise_self.
+  - intros s Hs. apply raise_mono. apply Hm1. exact Hs.
+  - intros Hrep. apply raise_mono. unfold r1. rewrite Hrep. apply raise_self.
   - apply raise_self.
 Qed.
 
-(** activities a store (not the instance) starts *)
-Definition store_activity (a : activity) : bool :=
-  match a with AMonitorDirect => false | _ => true end.
+(** The only signal that ends a replication worker waiting for a slot or inside a block
+    fetch is the replicator's root context ([Replicator().Stop()]), whatever the switches
+    and whatever else has been raised: a Close that skipped [Stop] in some configuration
+    would strand the workers of that configuration, and with them the load request. *)
+Theorem worker_needs_stop : forall sw raised a,
+  a = AReplWorkerWaiting \/ a = AReplWorkerFetching ->
+  smem SigReplRootCtx raised = false -> woken sw raised a = false.
+Proof.
+  intros sw raised a [-> | ->] H; unfold woken; simpl; rewrite H; reflexivity.
+Qed.
+
+(** ... and a store of any configuration can have such workers (its replicator is fed by
+    Sync, LoadMoreFrom and LoadFromSnapshot whether or not it replicates). *)
+Theorem every_config_can_replicate : forall cfg,
+  started_by cfg AReplWorkerWaiting = true /\ started_by cfg AReplWorkerFetching = true /\
+  started_by cfg ASyncLoad = true /\ started_by cfg ASnapshotLoad = true /\ started_by cfg AReplCtxBinder = true.
+Proof. intros cfg. repeat split; reflexivity. Qed.
 
 (** close_terminates: on the repaired tree, after Close every background activity of the
     store has a raised signal in its wake set - whatever was running, whatever had been
     raised before. *)
-Theorem close_terminates : forall acts raised a,
-  In a acts -> store_activity a = true ->
-  woken sw_fixed (st_raised (close sw_fixed (mkStore true acts raised))) a = true.
+Theorem close_terminates : forall cfg acts raised a,
+  In a acts -> started_by cfg a = true ->
+  woken sw_fixed (st_raised (close sw_fixed (mkStore cfg true acts raised))) a = true.
 Proof.
-  intros acts raised a _ Hs. unfold close, close_step. simpl.
+  intros cfg acts raised a _ Hs. unfold close, close_step. simpl.
   set (R := raise_all (close_signals sw_fixed) raised).
   assert (HC : smem SigStoreCtx R = true) by (apply raise_all_mem; simpl; auto).
   assert (HR : smem SigReplRootCtx R = true) by (apply raise_all_mem; simpl; auto).
   assert (HU : smem SigUnsubscribeAll R = true) by (apply raise_all_mem; simpl; auto 10).
-  destruct (consequences_fixed acts R HC HR) as [Hm [Ht Hw]].
+  destruct (consequences_fixed cfg acts R HC HR) as [Hm [Ht Hw]].
+  unfold started_by in Hs. apply andb_true_iff in Hs. destruct Hs as [Hs _].
+  apply andb_true_iff in Hs. destruct Hs as [Hs Hn].
   destruct a; try discriminate Hs.
   all: try solve [apply woken_by with (s := SigStoreCtx); [simpl; tauto | apply Hm; exact HC]].
-  all: try solve [apply woken_by with (s := SigTopicChans); [simpl; tauto | exact Ht]].
+  all: try solve [apply woken_by with (s := SigTopicChans); [simpl; tauto | apply Ht; exact Hn]].
   all: try solve [apply woken_by with (s := SigWorkersDone); [simpl; tauto | exact Hw]].
   all: try solve [apply woken_by with (s := SigReplRootCtx); [simpl; tauto | apply Hm; exact HR]].
   apply woken_by with (s := SigUnsubscribeAll); [simpl; tauto | apply Hm; exact HU].
@@ -105,34 +131,59 @@ Proof.
   rewrite (H x) by (left; reflexivity). apply IH. intros y Hy. apply H. right. exact Hy.
 Qed.
 
-Corollary close_leaves_nothing_stuck : forall acts raised,
-  forallb store_activity acts = true ->
-  stuck sw_fixed (close sw_fixed (mkStore true acts raised)) = [].
+Corollary close_leaves_nothing_stuck : forall cfg acts raised,
+  forallb (started_by cfg) acts = true ->
+  stuck sw_fixed (close sw_fixed (mkStore cfg true acts raised)) = [].
 Proof.
-  intros acts raised H. unfold stuck. apply filter_nil. intros a Ha.
-  change (st_acts (close sw_fixed (mkStore true acts raised))) with acts in Ha.
+  intros cfg acts raised H. unfold stuck. apply filter_nil. intros a Ha.
+  change (st_acts (close sw_fixed (mkStore cfg true acts raised))) with acts in Ha.
   rewrite forallb_forall in H.
-  rewrite (close_terminates acts raised a Ha (H a Ha)). reflexivity.
+  rewrite (close_terminates cfg acts raised a Ha (H a Ha)). reflexivity.
 Qed.
+
+(** what the driver scripts is within the theorem's reach: at every moment, in every
+    configuration, the model store only runs activities its configuration can have started *)
+Lemma acts_at_started : forall cfg w, forallb (started_by cfg) (acts_at cfg w) = true.
+Proof.
+  intros cfg w. unfold acts_at. rewrite forallb_app. apply andb_true_iff. split.
+  - destruct cfg as [[] m l]; reflexivity.
+  - apply forallb_forall. intros a Ha. apply filter_In in Ha. exact (proj2 Ha).
+Qed.
+
+Corollary close_fixed_every_moment : forall cfg w,
+  stuck sw_fixed (close sw_fixed (open_store cfg (acts_at cfg w))) = [].
+Proof. intros cfg w. apply close_leaves_nothing_stuck. apply acts_at_started. Qed.
 
 (** The tree as it stands: two kinds of activity survive Close. *)
 
 (** A replication worker whose fetch completes after the cancellation (kubo returns a block
     it holds locally whatever the context) has a fetched entry to hand to a progress
     consumer that has already left: the worker, and the load request waiting for it, stay. *)
-Theorem close_current_strands_delivering_worker :
-  stuck sw_pinned (close sw_pinned (open_store (acts_at 11%N))) = [ASyncLoad; AReplWorkerDelivering].
-Proof. reflexivity. Qed.
+Theorem close_current_strands_delivering_worker : forall cfg,
+  stuck sw_pinned (close sw_pinned (open_store cfg (acts_at cfg 11%N))) = [ASyncLoad; AReplWorkerDelivering].
+Proof. intros [[] [] []]; reflexivity. Qed.
 
 (** A legacy subscriber waits for its caller's context only. *)
-Theorem close_current_strands_legacy_subscriber :
-  stuck sw_pinned (close sw_pinned (open_store (acts_at 7%N))) = [ALegacySubscriber].
-Proof. reflexivity. Qed.
+Theorem close_current_strands_legacy_subscriber : forall cfg,
+  stuck sw_pinned (close sw_pinned (open_store cfg (acts_at cfg 7%N))) = [ALegacySubscriber].
+Proof. intros [[] [] []]; reflexivity. Qed.
 
-(** At every other scripted moment nothing is left, also on the tree as it stands. *)
+(** A Load waiting for a block nobody provides runs under its caller's context only. *)
+Theorem close_current_strands_stuck_load : forall cfg,
+  stuck sw_pinned (close sw_pinned (open_store cfg (acts_at cfg 18%N))) = [ALoadHeads] /\
+  op_class sw_pinned OpInflightLoadStuck = 3%N /\ op_class sw_pinned OpInflightSnapshotStuck = 3%N.
+Proof. intros [[] [] []]; repeat split; reflexivity. Qed.
+
+(** At every other scripted moment nothing is left, also on the pinned tree, in every
+    configuration (store-level moments: the store's; instance-level: two databases of any two
+    configurations). *)
 Theorem close_current_other_moments :
-  forall w, In w [0; 1; 2; 3; 4; 5; 6; 8; 9; 10]%N -> predicted_leaks sw_pinned w = [].
-Proof. intros w H. simpl in H. repeat (destruct H as [<- | H]; [reflexivity |]). destruct H. Qed.
+  forall cfg cfg' w, In w [0; 1; 2; 3; 4; 5; 6; 8; 9; 10; 12; 13; 14; 15; 16; 17]%N ->
+    predicted_leaks sw_pinned [cfg; cfg'] w = [].
+Proof.
+  intros [[] [] []] [[] [] []] w H; simpl in H;
+    repeat (destruct H as [<- | H]; [vm_compute; reflexivity |]); destruct H.
+Qed.
 
 (** close_idempotent: a second Close changes nothing, raises nothing and returns nil. *)
 Theorem close_idempotent : forall sw s,
@@ -159,7 +210,7 @@ Proof.
 Qed.
 
 Lemma closed_stores_not_stuck : forall extra stores,
-  (forall s, In s stores -> st_open s = true /\ forallb store_activity (st_acts s) = true) ->
+  (forall s, In s stores -> st_open s = true /\ forallb (started_by (st_cfg s)) (st_acts s) = true) ->
   flat_map (fun s => filter (fun a => negb (woken sw_fixed (st_raised s ++ extra) a)) (st_acts s))
            (map (close sw_fixed) stores) = [].
 Proof.
@@ -167,18 +218,19 @@ Proof.
   cbn [map flat_map]. rewrite IH by (intros s' H'; apply Hs; right; exact H').
   rewrite app_nil_r. apply filter_nil. intros a Ha.
   destruct (Hs s (or_introl eq_refl)) as [Ho Hf].
-  destruct s as [o acts r]. cbn [st_open st_acts] in Ho, Hf. subst o.
-  change (st_acts (close sw_fixed (mkStore true acts r))) with acts in Ha.
+  destruct s as [cfg o acts r]. cbn [st_open st_acts st_cfg] in Ho, Hf. subst o.
+  change (st_acts (close sw_fixed (mkStore cfg true acts r))) with acts in Ha.
   rewrite forallb_forall in Hf.
-  rewrite (woken_mono sw_fixed a (st_raised (close sw_fixed (mkStore true acts r)))); [reflexivity | | ].
+  rewrite (woken_mono sw_fixed a (st_raised (close sw_fixed (mkStore cfg true acts r)))); [reflexivity | | ].
   - intros sg Hsg. rewrite smem_app, Hsg. reflexivity.
   - apply close_terminates; [exact Ha | apply Hf; exact Ha].
 Qed.
 
-(** after the instance Close, every store activity of every store that was open and the
-    instance's own monitor have a raised signal in their wake set (repaired tree) *)
+(** after the instance Close, every store activity of every store that was open - each store
+    with its own configuration - and the instance's own monitor have a raised signal in their
+    wake set (repaired tree) *)
 Theorem iclose_terminates : forall stores iacts raised,
-  (forall s, In s stores -> st_open s = true /\ forallb store_activity (st_acts s) = true) ->
+  (forall s, In s stores -> st_open s = true /\ forallb (started_by (st_cfg s)) (st_acts s) = true) ->
   (forall a, In a iacts -> a = AMonitorDirect) ->
   istuck sw_fixed (iclose sw_fixed (mkInst stores iacts raised)) = [].
 Proof.
@@ -216,6 +268,10 @@ Theorem drop_current_locking :
   drop_locking sw_pinned false true = Deadlocks /\
   op_class sw_pinned OpDropStale = 3%N.
 Proof. split; [intros []; reflexivity | repeat split; reflexivity]. Qed.
+
+(** a load waiting for a block ends with Close once its context is bound to the store's *)
+Theorem load_ends_fixed : load_ends sw_fixed = Returns /\ load_ends sw_pinned = Deadlocks.
+Proof. split; reflexivity. Qed.
 
 Theorem all_ops_complete : forall o, In o all_ops.
 Proof. destruct o; simpl; auto 40. Qed.
@@ -280,54 +336,118 @@ Proof. apply is_prefix_spec. exists []. rewrite app_nil_r. reflexivity. Qed.
 Lemma is_prefix_diff_head r1 r2 a b : r1 <> r2 -> is_prefix (r1 :: a) (r2 :: b) = false.
 Proof. intros H. simpl. apply N.eqb_neq in H. rewrite H. reflexivity. Qed.
 
-(** drop_scope: two addresses with different roots whose paths contain no ".." segment
-    (in particular clean paths): neither cache directory equals or lies below the other,
-    so Drop of one does not remove the other's directory. *)
-Theorem drop_scope_no_dotdot : forall dir r1 p1 r2 p2,
-  r1 <> r2 -> no_dotdot p1 = true -> no_dotdot p2 = true ->
-  drop_removes dir r1 p1 (datastore_key dir r2 p2) = false /\
-  drop_removes dir r2 p2 (datastore_key dir r1 p1) = false.
+(** ** What a Drop removes *)
+
+Lemma is_prefix_false_app d a b : is_prefix a b = false -> is_prefix (d ++ a) (d ++ b) = false.
+Proof. intros H. rewrite is_prefix_app. exact H. Qed.
+
+Lemma key_eqb_spec a b : key_eqb a b = true <-> a = b.
 Proof.
-  intros dir r1 p1 r2 p2 Hr H1 H2. unfold drop_removes.
-  rewrite !key_no_dotdot by assumption. rewrite !is_prefix_app.
-  split; apply is_prefix_diff_head; [exact Hr | intros E; apply Hr; symmetry; exact E].
+  unfold key_eqb. rewrite andb_true_iff, !is_prefix_spec. split.
+  - intros [[r1 H1] [r2 H2]]. subst b. rewrite <- app_assoc in H2.
+    rewrite <- (app_nil_r a) in H2 at 1. apply app_inv_head in H2.
+    symmetry in H2. apply app_eq_nil in H2. destruct H2 as [-> _]. rewrite app_nil_r. reflexivity.
+  - intros ->. split; exists []; rewrite app_nil_r; reflexivity.
 Qed.
 
-Theorem drop_scope : forall dir r1 p1 r2 p2,
-  r1 <> r2 -> clean_path p1 = true -> clean_path p2 = true ->
-  drop_removes dir r1 p1 (datastore_key dir r2 p2) = false /\
-  drop_removes dir r2 p2 (datastore_key dir r1 p1) = false.
+Lemma is_child_prefix k f : is_child k f = true -> is_prefix k f = true.
+Proof. unfold is_child. intros H. apply andb_true_iff in H. exact (proj2 H). Qed.
+
+(** what a Drop removes is below its directory, whichever way Destroy works *)
+Lemma removed_is_below sw k f :
+  (if sw_destroy_own_files sw then is_child k f else is_prefix k f) = true -> is_prefix k f = true.
+Proof. destruct (sw_destroy_own_files sw); [apply is_child_prefix | trivial]. Qed.
+
+Lemma drop_removes_is_prefix sw cfg dir r p k' :
+  drop_removes sw cfg dir r p k' = true -> is_prefix (datastore_key dir r p) k' = true.
 Proof.
-  intros dir r1 p1 r2 p2 Hr H1 H2.
+  unfold drop_removes. intros H. apply andb_true_iff in H. destruct H as [_ H].
+  destruct (sw_destroy_own_files sw); [| exact H].
+  apply key_eqb_spec in H. rewrite H. apply is_prefix_refl.
+Qed.
+
+(** drop_scope: two addresses with different roots whose paths contain no ".." segment
+    (in particular clean paths): neither cache directory equals or lies below the other,
+    so Drop of one does not remove the other's directory - in every configuration and
+    whichever way Destroy works. *)
+Theorem drop_scope_no_dotdot : forall sw cfg dir r1 p1 r2 p2,
+  r1 <> r2 -> no_dotdot p1 = true -> no_dotdot p2 = true ->
+  drop_removes sw cfg dir r1 p1 (datastore_key dir r2 p2) = false /\
+  drop_removes sw cfg dir r2 p2 (datastore_key dir r1 p1) = false.
+Proof.
+  intros sw cfg dir r1 p1 r2 p2 Hr H1 H2.
+  assert (A : is_prefix (datastore_key dir r1 p1) (datastore_key dir r2 p2) = false).
+  { rewrite !key_no_dotdot by assumption. rewrite is_prefix_app. apply is_prefix_diff_head. exact Hr. }
+  assert (B : is_prefix (datastore_key dir r2 p2) (datastore_key dir r1 p1) = false).
+  { rewrite !key_no_dotdot by assumption. rewrite is_prefix_app. apply is_prefix_diff_head.
+    intros E; apply Hr; symmetry; exact E. }
+  split.
+  - destruct (drop_removes sw cfg dir r1 p1 (datastore_key dir r2 p2)) eqn:E; [| reflexivity].
+    apply drop_removes_is_prefix in E. rewrite A in E. discriminate E.
+  - destruct (drop_removes sw cfg dir r2 p2 (datastore_key dir r1 p1)) eqn:E; [| reflexivity].
+    apply drop_removes_is_prefix in E. rewrite B in E. discriminate E.
+Qed.
+
+Theorem drop_scope : forall sw cfg dir r1 p1 r2 p2,
+  r1 <> r2 -> clean_path p1 = true -> clean_path p2 = true ->
+  drop_removes sw cfg dir r1 p1 (datastore_key dir r2 p2) = false /\
+  drop_removes sw cfg dir r2 p2 (datastore_key dir r1 p1) = false.
+Proof.
+  intros sw cfg dir r1 p1 r2 p2 Hr H1 H2.
   apply drop_scope_no_dotdot; [exact Hr | apply clean_no_dotdot; exact H1 | apply clean_no_dotdot; exact H2].
 Qed.
 
 (** ... and every file below the other database's directory survives the removal. *)
-Theorem drop_keeps_sibling_files : forall dir r1 p1 r2 p2 fs f,
+Theorem drop_keeps_sibling_files : forall sw cfg dir r1 p1 r2 p2 fs f,
   r1 <> r2 -> no_dotdot p1 = true -> no_dotdot p2 = true ->
   In f fs -> is_prefix (datastore_key dir r2 p2) f = true ->
-  In f (destroy (datastore_key dir r1 p1) fs).
+  In f (destroy_cfg sw cfg (datastore_key dir r1 p1) fs).
 Proof.
-  intros dir r1 p1 r2 p2 fs f Hr H1 H2 Hin Hp. unfold destroy. apply filter_In. split; [exact Hin |].
+  intros sw cfg dir r1 p1 r2 p2 fs f Hr H1 H2 Hin Hp. unfold destroy_cfg.
+  destruct (cf_memory cfg); [exact Hin |].
+  unfold destroy. apply filter_In. split; [exact Hin |].
+  destruct (if sw_destroy_own_files sw then is_child (datastore_key dir r1 p1) f
+            else is_prefix (datastore_key dir r1 p1) f) eqn:E; [| reflexivity].
+  apply removed_is_below in E.
   rewrite key_no_dotdot in * by assumption.
   apply is_prefix_spec in Hp. destruct Hp as [rest ->].
-  rewrite <- app_assoc, is_prefix_app. simpl.
-  apply N.eqb_neq in Hr. rewrite Hr. reflexivity.
+  rewrite <- app_assoc, is_prefix_app in E. simpl in E.
+  apply N.eqb_neq in Hr. rewrite Hr in E. discriminate E.
 Qed.
 
-(** ... while the dropped database's own files are all gone. *)
-Theorem drop_removes_own_files : forall dir r p fs f,
-  is_prefix (datastore_key dir r p) f = true -> ~ In f (destroy (datastore_key dir r p) fs).
+(** ... while the dropped database's own files (the ones directly in its directory) are all
+    gone, whichever way Destroy works. *)
+Theorem drop_removes_own_files : forall sw dir r p fs f,
+  is_child (datastore_key dir r p) f = true -> ~ In f (destroy sw (datastore_key dir r p) fs).
+Proof.
+  intros sw dir r p fs f Hp Hin. unfold destroy in Hin. apply filter_In in Hin. destruct Hin as [_ H].
+  destruct (sw_destroy_own_files sw); [rewrite Hp in H | rewrite (is_child_prefix _ _ Hp) in H]; discriminate H.
+Qed.
+
+(** RemoveAll (the pinned Destroy) removes everything below the directory. *)
+Theorem drop_pinned_removes_everything_below : forall dir r p fs f,
+  is_prefix (datastore_key dir r p) f = true -> ~ In f (destroy sw_pinned (datastore_key dir r p) fs).
 Proof.
   intros dir r p fs f Hp Hin. unfold destroy in Hin. apply filter_In in Hin. destruct Hin as [_ H].
-  rewrite Hp in H. discriminate H.
+  cbn [sw_destroy_own_files sw_pinned] in H. rewrite Hp in H. discriminate H.
 Qed.
+
+Corollary drop_removes_own_files_cfg : forall sw cfg dir r p fs f,
+  cf_memory cfg = false ->
+  is_child (datastore_key dir r p) f = true -> ~ In f (destroy_cfg sw cfg (datastore_key dir r p) fs).
+Proof. intros sw cfg dir r p fs f Hm. unfold destroy_cfg. rewrite Hm. apply drop_removes_own_files. Qed.
+
+(** An instance on ":memory:" has nothing on disk: Drop removes no file at all. *)
+Theorem drop_memory_removes_nothing : forall sw cfg dir r p fs k',
+  cf_memory cfg = true ->
+  destroy_cfg sw cfg (datastore_key dir r p) fs = fs /\ drop_removes sw cfg dir r p k' = false.
+Proof. intros sw cfg dir r p fs k' Hm. unfold destroy_cfg, drop_removes. rewrite Hm. split; reflexivity. Qed.
 
 (** With the address check, every address that can be opened satisfies the hypothesis. *)
 Theorem accepted_fixed_no_dotdot : forall p, address_accepted sw_fixed p = true -> no_dotdot p = true.
 Proof. intros p H. exact H. Qed.
 
-(** Refutation on the tree as it stands: the address /orbitdb/r1/../r2/name is accepted,
+(** Refutation on the pinned tree: the address /orbitdb/r1/../r2/name is accepted,
     prints as the OTHER database's address, and has the other database's cache directory;
     dropping it removes every file of /orbitdb/r2/name. *)
 Theorem dotdot_alias_accepted : forall r2 name,
@@ -340,32 +460,137 @@ Theorem dotdot_alias_same_directory : forall dir r1 r2 name,
   address_string r1 [SDotDot; SNorm r2; SNorm name] = address_string r2 [SNorm name].
 Proof. intros. split; reflexivity. Qed.
 
-Theorem dotdot_alias_drop_destroys_other : forall dir r1 r2 name fs f,
-  r1 <> r2 ->
+Theorem dotdot_alias_drop_destroys_other : forall cfg dir r1 r2 name fs f,
+  cf_memory cfg = false -> r1 <> r2 ->
   is_prefix (datastore_key dir r2 [SNorm name]) f = true ->
-  ~ In f (destroy (datastore_key dir r1 [SDotDot; SNorm r2; SNorm name]) fs).
+  ~ In f (destroy_cfg sw_pinned cfg (datastore_key dir r1 [SDotDot; SNorm r2; SNorm name]) fs).
 Proof.
-  intros dir r1 r2 name fs f _ Hp.
+  intros cfg dir r1 r2 name fs f Hm _ Hp.
   destruct (dotdot_alias_same_directory dir r1 r2 name) as [E _]. rewrite E.
-  apply drop_removes_own_files. exact Hp.
+  unfold destroy_cfg. rewrite Hm. apply drop_pinned_removes_everything_below. exact Hp.
 Qed.
 
-Theorem dotdot_alias_refutation : forall dir r1 r2 name fs f,
-  r1 <> r2 ->
+Theorem dotdot_alias_refutation : forall cfg dir r1 r2 name fs f,
+  cf_memory cfg = false -> r1 <> r2 ->
   address_accepted sw_pinned [SDotDot; SNorm r2; SNorm name] = true /\
   datastore_key dir r1 [SDotDot; SNorm r2; SNorm name] = datastore_key dir r2 [SNorm name] /\
   (is_prefix (datastore_key dir r2 [SNorm name]) f = true ->
-   ~ In f (destroy (datastore_key dir r1 [SDotDot; SNorm r2; SNorm name]) fs)).
+   ~ In f (destroy_cfg sw_pinned cfg (datastore_key dir r1 [SDotDot; SNorm r2; SNorm name]) fs)).
 Proof.
-  intros dir r1 r2 name fs f H. split; [apply dotdot_alias_accepted |].
-  split; [apply dotdot_alias_same_directory | apply dotdot_alias_drop_destroys_other; exact H].
+  intros cfg dir r1 r2 name fs f Hm H. split; [apply dotdot_alias_accepted |].
+  split; [apply dotdot_alias_same_directory | apply dotdot_alias_drop_destroys_other; assumption].
 Qed.
 
-(** Same root: directories nest (an address /orbitdb/r/x/y lives inside the leveldb
-    directory of /orbitdb/r/x), which is why [drop_scope] asks for different roots. *)
-Theorem drop_same_root_nested : forall dir r x y,
-  drop_removes dir r [SNorm x] (datastore_key dir r [SNorm x; SNorm y]) = true.
+(** ** Databases that share a manifest root
+
+    Open accepts any path under a manifest root: /orbitdb/r/demo, /orbitdb/r/archive/demo and
+    /orbitdb/r/demo/sub are three databases (three addresses, log ids, topics), and their cache
+    directories are told apart by the FULL path. *)
+
+(** the cache key is injective on (root, path): two addresses share a cache only if they are
+    the same address (up to "." and empty segments) *)
+Theorem cache_key_injective : forall dir r1 p1 r2 p2,
+  no_dotdot p1 = true -> no_dotdot p2 = true ->
+  datastore_key dir r1 p1 = datastore_key dir r2 p2 -> r1 = r2 /\ names p1 = names p2.
 Proof.
-  intros. unfold drop_removes. rewrite !key_no_dotdot by reflexivity. rewrite is_prefix_app. simpl.
-  rewrite !N.eqb_refl. reflexivity.
+  intros dir r1 p1 r2 p2 H1 H2 E. rewrite !key_no_dotdot in E by assumption.
+  apply app_inv_head in E. inversion E. split; reflexivity.
+Qed.
+
+(** ... hence closing one database leaves the cache of every other one open: a write on the
+    other is acknowledged. *)
+Theorem close_keeps_sibling_cache : forall dir r1 p1 r2 p2,
+  no_dotdot p1 = true -> no_dotdot p2 = true ->
+  (r1 <> r2 \/ names p1 <> names p2) ->
+  shares_cache dir r1 p1 r2 p2 = false /\ write_after_sibling_close dir r1 p1 r2 p2 = Ok RDone.
+Proof.
+  intros dir r1 p1 r2 p2 H1 H2 Hd.
+  assert (S : shares_cache dir r1 p1 r2 p2 = false).
+  { unfold shares_cache. destruct (key_eqb _ _) eqn:E; [| reflexivity].
+    apply key_eqb_spec in E. apply cache_key_injective in E; [| assumption | assumption].
+    destruct E as [Er Ep]. destruct Hd as [Hd | Hd]; contradiction. }
+  split; [exact S |]. unfold write_after_sibling_close. rewrite S. reflexivity.
+Qed.
+
+(** Same root, on the pinned tree: directories nest (an address /orbitdb/r/x/y lives inside the
+    leveldb directory of /orbitdb/r/x): Drop of /orbitdb/r/x removes the directory, and every
+    file, of /orbitdb/r/x/y. *)
+Theorem drop_same_root_nested : forall cfg dir r x y fs f,
+  cf_memory cfg = false ->
+  drop_removes sw_pinned cfg dir r [SNorm x] (datastore_key dir r [SNorm x; SNorm y]) = true /\
+  (is_prefix (datastore_key dir r [SNorm x; SNorm y]) f = true ->
+   ~ In f (destroy_cfg sw_pinned cfg (datastore_key dir r [SNorm x]) fs)).
+Proof.
+  intros cfg dir r x y fs f Hm. split.
+  - unfold drop_removes. rewrite Hm. cbn [negb andb sw_pinned sw_destroy_own_files].
+    rewrite !key_no_dotdot by reflexivity. rewrite is_prefix_app. simpl. rewrite !N.eqb_refl. reflexivity.
+  - intros Hp. unfold destroy_cfg. rewrite Hm. apply drop_pinned_removes_everything_below.
+    rewrite !key_no_dotdot in * by reflexivity.
+    apply is_prefix_spec in Hp. destruct Hp as [rest ->]. apply is_prefix_spec.
+    exists (y :: rest). simpl. rewrite <- !app_assoc. reflexivity.
+Qed.
+
+(** ... while same-root databases whose paths do not extend one another (same last segment,
+    different full path: r/demo and r/archive/demo) are safe on the pinned tree as well. *)
+Theorem drop_scope_same_root_not_nested : forall sw cfg dir r p1 p2,
+  no_dotdot p1 = true -> no_dotdot p2 = true ->
+  is_prefix (names p1) (names p2) = false -> is_prefix (names p2) (names p1) = false ->
+  drop_removes sw cfg dir r p1 (datastore_key dir r p2) = false /\
+  drop_removes sw cfg dir r p2 (datastore_key dir r p1) = false.
+Proof.
+  intros sw cfg dir r p1 p2 H1 H2 N1 N2.
+  split.
+  - destruct (drop_removes sw cfg dir r p1 (datastore_key dir r p2)) eqn:E; [| reflexivity].
+    apply drop_removes_is_prefix in E. rewrite !key_no_dotdot in E by assumption.
+    rewrite is_prefix_app in E. simpl in E. rewrite N.eqb_refl, N1 in E. discriminate E.
+  - destruct (drop_removes sw cfg dir r p2 (datastore_key dir r p1)) eqn:E; [| reflexivity].
+    apply drop_removes_is_prefix in E. rewrite !key_no_dotdot in E by assumption.
+    rewrite is_prefix_app in E. simpl in E. rewrite N.eqb_refl, N2 in E. discriminate E.
+Qed.
+
+(** With a Destroy that removes the files of its own directory only, ANY two different
+    databases are out of each other's reach - same root or not, nested or not: Drop of the one
+    removes neither the directory nor any file of the other. *)
+Theorem drop_scope_any_two : forall cfg dir r1 p1 r2 p2,
+  no_dotdot p1 = true -> no_dotdot p2 = true ->
+  (r1 <> r2 \/ names p1 <> names p2) ->
+  drop_removes sw_fixed cfg dir r1 p1 (datastore_key dir r2 p2) = false /\
+  drop_removes sw_fixed cfg dir r2 p2 (datastore_key dir r1 p1) = false.
+Proof.
+  intros cfg dir r1 p1 r2 p2 H1 H2 Hd. unfold drop_removes. cbn [sw_fixed sw_destroy_own_files].
+  destruct (cf_memory cfg); [split; reflexivity |]. cbn [negb andb].
+  split.
+  - destruct (key_eqb _ _) eqn:E; [| reflexivity]. apply key_eqb_spec in E.
+    apply cache_key_injective in E; [| assumption | assumption].
+    destruct E as [Er Ep]. destruct Hd as [Hd | Hd]; contradiction.
+  - destruct (key_eqb _ _) eqn:E; [| reflexivity]. apply key_eqb_spec in E.
+    apply cache_key_injective in E; [| assumption | assumption].
+    destruct E as [Er Ep]. exfalso. destruct Hd as [Hd | Hd]; apply Hd; symmetry; assumption.
+Qed.
+
+Lemma is_child_unique k1 k2 f : is_child k1 f = true -> is_child k2 f = true -> k1 = k2.
+Proof.
+  unfold is_child. intros A B. apply andb_true_iff in A. apply andb_true_iff in B.
+  destruct A as [L1 P1], B as [L2 P2]. apply Nat.eqb_eq in L1. apply Nat.eqb_eq in L2.
+  apply is_prefix_spec in P1. apply is_prefix_spec in P2.
+  destruct P1 as [s1 E1], P2 as [s2 E2].
+  assert (length k1 = length k2) by lia.
+  rewrite E1 in E2. clear - E2 H.
+  revert k2 H E2. induction k1 as [|x k1 IH]; intros [|y k2] H E2; simpl in *; try discriminate; [reflexivity |].
+  inversion E2. f_equal. apply IH; [lia | assumption].
+Qed.
+
+Theorem drop_any_two_keeps_files : forall cfg dir r1 p1 r2 p2 fs f,
+  no_dotdot p1 = true -> no_dotdot p2 = true ->
+  (r1 <> r2 \/ names p1 <> names p2) ->
+  In f fs -> is_child (datastore_key dir r2 p2) f = true ->
+  In f (destroy_cfg sw_fixed cfg (datastore_key dir r1 p1) fs).
+Proof.
+  intros cfg dir r1 p1 r2 p2 fs f H1 H2 Hd Hin Hc. unfold destroy_cfg.
+  destruct (cf_memory cfg); [exact Hin |].
+  unfold destroy. cbn [sw_fixed sw_destroy_own_files]. apply filter_In. split; [exact Hin |].
+  destruct (is_child (datastore_key dir r1 p1) f) eqn:E; [| reflexivity].
+  pose proof (is_child_unique _ _ _ E Hc) as K.
+  apply cache_key_injective in K; [| assumption | assumption].
+  destruct K as [Er Ep]. destruct Hd as [Hd | Hd]; contradiction.
 Qed.
